@@ -223,7 +223,9 @@ PLANS["C03"] = {
            mcrec("osc", 1, True, ports({"chars": 2}, {"chars": 1, "bytes": 1})),
            mcrec("oscx", {"quick": 2, "thorough": 3}, True, ports({"chars": 2}, {"chars": 1, "bytes": 3})),
            mcrec("pairs", 1, True, ports({"chars": 1, "chars1": 2, "bytes": 3}, {"chars": 1, "chars1": 1, "bytes": 1, "bytes1": 2})),
-           mcrec("pairs", 1, False, ports({"chars": 1}, {"chars": 1, "chars1": 2, "bytes": 2}))],
+           mcrec("pairs", 1, False, ports({"chars": 1}, {"chars": 1, "chars1": 2, "bytes": 2})),
+           {"module": "MCRecAbs", "model": "rec-class-abstraction", "kind": "rec", "plain": True, "emit": False,
+            "invariants": ["ClassAbstractionSound", "Accounted"], "ports": ports({}, {}), "workers": 4}],
     "gen": [gen("recsoup", 600, 20000, chars=60), gen("recsoup", 200, 6000, chars=200), walk("", 100, 3000, port="chars"),
             walk("", 60, 2000, port="chars", utf8=0)],
     "rule": "random strings over one representative of every character class of the grammar (every C0 control, ESC, C1 CSI/OSC/ST, digits, "
